@@ -67,9 +67,12 @@ def is_pending(v):
 SCRIPT = os.path.join(vlib.REPO, "tools", "bin", "make-single-file")
 
 HELPER = r'''
-import argparse, contextlib, importlib.machinery, importlib.util, io, json, os, sys
+import argparse, contextlib, importlib.machinery, importlib.util, io, json, os, resource, sys
 script, root = sys.argv[1], sys.argv[2]
 os.chdir(root)
+# a script that loops while appending to its work list must die quickly instead of eating the machine
+resource.setrlimit(resource.RLIMIT_AS, (1 << 31, 1 << 31))
+resource.setrlimit(resource.RLIMIT_CPU, (int(sys.argv[3]), int(sys.argv[3]) + 1))
 loader = importlib.machinery.SourceFileLoader("msf", script)
 spec = importlib.util.spec_from_loader("msf", loader)
 mod = importlib.util.module_from_spec(spec)
@@ -115,7 +118,12 @@ for line in sys.stdin:
 '''
 
 
-def run_helper(wd, root, jobs, timeout=600):
+def _limits():
+    import resource
+    resource.setrlimit(resource.RLIMIT_AS, (1 << 31, 1 << 31))
+
+
+def run_helper(wd, root, jobs, timeout=60):
     """Run the real script's functions (cwd = root) on the jobs. Returns list of result dicts; a
     timeout gives [{"ok": False, "error": "timeout"}] * len(jobs)."""
     hp = os.path.join(wd, "helper.py")
@@ -123,13 +131,16 @@ def run_helper(wd, root, jobs, timeout=600):
         with open(hp, "w") as f:
             f.write(HELPER)
     try:
-        p = subprocess.run([sys.executable, hp, SCRIPT, root], input="".join(json.dumps(j) + "\n" for j in jobs),
-                           capture_output=True, text=True, timeout=timeout)
+        p = subprocess.run([sys.executable, hp, SCRIPT, root, str(int(timeout))],
+                           input="".join(json.dumps(j) + "\n" for j in jobs),
+                           capture_output=True, text=True, timeout=timeout + 5)
     except subprocess.TimeoutExpired:
         return [{"ok": False, "error": "timeout"} for _ in jobs]
     out = [json.loads(l) for l in p.stdout.split("\n") if l.strip()]
     if len(out) != len(jobs):
-        raise RuntimeError("helper: %d answers for %d jobs\n%s" % (len(out), len(jobs), p.stderr[-2000:]))
+        # the helper died (CPU limit = the script loops; anything else is reported as such)
+        why = "timeout" if p.returncode in (-9, -24, 137, 152) else "helper died rc=%s: %s" % (p.returncode, p.stderr[-300:])
+        out += [{"ok": False, "error": why} for _ in range(len(jobs) - len(out))]
     return out
 
 
@@ -428,7 +439,9 @@ def explore_real(tier, rng, wd, drv, ex, ids, stats, violations):
             if not results[k].get("ok"):
                 continue            # already reported (script fails / does not terminate in-process)
             try:
-                rc, out, err = run([sys.executable, SCRIPT] + cli_args(s), cwd=vlib.REPO, timeout=60)
+                p = subprocess.run([sys.executable, SCRIPT] + cli_args(s), cwd=vlib.REPO, timeout=60,
+                                   capture_output=True, text=True, preexec_fn=_limits)
+                rc, out, err = p.returncode, p.stdout, p.stderr
             except subprocess.TimeoutExpired:
                 violations.append(viol_order("order-real", "make-single-file does not terminate (60 s) on this selection",
                                              "cli-timeout", rec, False))
@@ -596,7 +609,7 @@ def explore_synth(tier, rng, wd, drv, stats, violations):
         idx = by_tree[d]
         jobs = [{"units": cases[i][4]["units"], "constants": cases[i][4]["constants"], "mains": cases[i][4]["mains"],
                  "io": cases[i][4]["io"], "text": i in n_text} for i in idx]
-        return run_helper(wd, cases[idx[0]][1], jobs)
+        return run_helper(wd, cases[idx[0]][1], jobs, timeout=10)
     groups = [trees[i::16] for i in range(16)]
     results = [None] * len(cases)
 
@@ -728,7 +741,7 @@ def explore_malformed(tier, rng, wd, drv, stats, violations):
 
     def work(job):
         kind, root, g, path, aun = job
-        return run_helper(wd, root, [{"units": [], "constants": [], "mains": [], "io": False}], timeout=6)[0]
+        return run_helper(wd, root, [{"units": [], "constants": [], "mains": [], "io": False}], timeout=4)[0]
     res = pmap(work, jobs)
     req = ["c20.order %s %d" % (enc_graph([(k, g[k]) for k in sorted(g)]), aun) for (_, _, g, _, aun) in jobs]
     ans = drv.ask(req)
